@@ -209,6 +209,25 @@ func genQueueProgram(rng *rand.Rand, family string) (ths []qthread, singleProduc
 		return qop{kind: "iter", removes: rm, maxNext: 1 + rng.Intn(8)}
 	}
 	switch family {
+	case "lag":
+		// a producer frozen inside Offer (between linking its node and swinging the tail) while consumers drain past the
+		// lagging tail; later producers must still complete (C07)
+		ths = nil
+		var pre []qop
+		for i := rng.Intn(3); i > 0; i-- {
+			pre = append(pre, qop{kind: "offer", v: fresh()}, qop{kind: "poll"})
+		}
+		for i := 1 + rng.Intn(3); i > 0; i-- {
+			pre = append(pre, qop{kind: "offer", v: fresh()})
+		}
+		ths = append(ths, qthread{ops: pre, phase: 0})
+		ths = append(ths, qthread{ops: []qop{{kind: "offer", v: fresh()}, {kind: "offer", v: fresh()}}, phase: 1}) // to be frozen
+		var polls []qop
+		for i := 2 + rng.Intn(4); i > 0; i-- {
+			polls = append(polls, qop{kind: "poll"})
+		}
+		ths = append(ths, qthread{ops: polls, phase: 1})
+		ths = append(ths, qthread{ops: []qop{{kind: "offer", v: fresh()}, {kind: "poll"}, {kind: "offer", v: fresh()}}, phase: 1})
 	case "iter":
 		singleProducer = true
 		var ops []qop
@@ -522,6 +541,9 @@ func runQueue(fs *flag.FlagSet, args []string) {
 		family := *cf.kind
 		if family == "any" {
 			family = []string{"lin", "iter", "mix", "seq"}[rng.Intn(4)]
+			if *freeze && rng.Intn(3) == 0 {
+				family = "lag"
+			}
 		}
 		if *impl == "mutex" {
 			family = "mlin"
@@ -575,6 +597,18 @@ func runQueue(fs *flag.FlagSet, args []string) {
 				frozenTid = cands[rng.Intn(len(cands))]
 				s.freezeAt[frozenTid] = rng.Intn(40)
 				s.solo = rng.Intn(2) == 0
+				if family == "lag" {
+					delete(s.freezeAt, frozenTid)
+					frozenTid = cands[0]
+					s.freezeAt[frozenTid] = 1 + rng.Intn(14)
+					s.solo = true
+					// let the producer-to-be-frozen run first, alone, up to its freeze point
+					s.phase[frozenTid] = 1
+					for _, c := range cands[1:] {
+						s.phase[c] = 2
+					}
+					s.phase[len(ths)-1] = 3
+				}
 			}
 		}
 		runf(run, "family=%s impl=%s freeze=%d@%d %s", family, *impl, frozenTid, s.freezeAt[frozenTid], strings.Join(desc, " "))
